@@ -105,6 +105,14 @@ CHECKS = {
         note="This is a linking decision supported by a solver (type inference as constraint solving), not a deep semantic proof; REAL vs INTEGER width is not distinguished. Families bound which call shapes are seen.",
         design="DESIGN.md §5 C14",
     ),
+    "C15": dict(
+        engine="rxsmt",
+        category=OT,
+        technique="SMT (z3 regex/string queries over the real token and procedure-name regexes, models replayed) + crash/hang monitor enumerating single-token edits, extreme literals, option and file-name extremes under a watchdog",
+        text="z3 decides over the real int_literal / linenum / int_hex_literal / PROCNAME_REGEX / PROCEDURE_START_PREFIX regexes that every accepted token reaches its conversion and that every procedure name passing PROCNAME_REGEX.match yields a header the bank re-finds (models are replayed through convert()). The monitor calls the real convert() on every single-token deletion, duplication and swap of ~330 family programs (x two option sets in thorough), ~70 extreme inputs, option extremes and 14 CLI file names, each under a 5 s watchdog; any exception other than the documented refusals is reported, identified by exception class and the two innermost functions of the tool.",
+        note="The monitor is an enumeration, not a solver decision (labelled `other`); 'all strings' beyond single-token edits of family programs is outside; hang detection is a 5 s watchdog.",
+        design="DESIGN.md §5 C15",
+    ),
     "C09": dict(
         engine="rxsmt+symproxy",
         category=OT,
